@@ -16,7 +16,10 @@ NUM = re.compile(r"^[-+]?(\d+\.?\d*|\.\d+)([eE][-+]?\d+)?$")
 
 def tok(x, scale):
     """coordinate -> (integer token, survives at the written precision)"""
-    k = round(x / scale)
+    q = x / scale
+    if not (abs(q) < 1e9):          # far from every token (TLC integers are 32 bit): a sentinel that equals no token
+        return (10 ** 9 if q > 0 else -10 ** 9), False
+    k = round(q)
     return k, abs(x - k * scale) <= 6e-5 * abs(k * scale) + 1e-300
 
 
@@ -76,7 +79,9 @@ def tokenise(path, scale, ncells):
 def cases(tier, seed):
     rnd = random.Random(seed)
     seeds = ["tetra", "octa", "bipyr", "sphere1"]
-    scales = [1.2345e-6, 1.0, 7.7e4, 3.1e-12]
+    # the coordinate tokens are signed integers times a scale: ordinary magnitudes, and magnitudes whose written form has a
+    # three-digit exponent (the longest tokens of the format: "-d.dddde-ddd")
+    scales = [1.2345e-6, 1.0, 7.7e4, 3.1e-12, 2.5e-120, 6.0221e+99, 3.75e-203]
     out = []
     def cell(sd=None, t=None, nops=None):
         sd = sd or rnd.choice(seeds)
@@ -84,8 +89,8 @@ def cases(tier, seed):
         return {"seed": sd, "type": rnd.randint(0, 4) if t is None else t, "ops": [[rnd.choice(["split", "merge", "split"]), rnd.randint(0, 40)] for _ in range(nops)], "salt": rnd.randint(0, 60)}
     for t in range(5):
         for sd in seeds:
-            out.append({"scale": scales[(t + len(out)) % 4], "cells": [cell(sd, t, 0)]})
-            out.append({"scale": scales[(t + len(out)) % 4], "cells": [cell(sd, t, 2)]})
+            out.append({"scale": scales[(t + len(out)) % len(scales)], "cells": [cell(sd, t, 0)]})
+            out.append({"scale": scales[(t + len(out)) % len(scales)], "cells": [cell(sd, t, 2)]})
     for n in range(40 if tier == "quick" else 600):
         out.append({"scale": rnd.choice(scales), "cells": [cell() for _ in range(rnd.randint(2, 4))]})
     for i, c in enumerate(out):
